@@ -1,6 +1,11 @@
 HOOK_COMMITS: list = []
 
 CHECKS = {
+    "C01": {
+        "text": "Bounded symbolic check of the real ScatterStep and GatherStep on a deterministic event loop: scatter emits exactly elements <tag>.<i> (i<n, n symbolic up to 12/24) and the size token; gather emits exactly one list per key in numeric index order for ANY distinct symbolic indexes (0..99 / 0..999, so >=10 is inside), any position of the size token or none, one-at-a-time or batch arrival, either termination order, 1-3 interleaved keys, depth 1-2; nested scatter/gather pipelines return the original nested list under solver-chosen interleavings (first K ready-queue choices).",
+        "note": "StubDatabase and DetLoop replace sqlite and the selector loop; at most 3 (quick) / 4 (thorough) element tokens per gather harness, so a counting bug needing >=5 arrivals is outside; key prefixes concrete; interleavings differ only in the first K choice points.",
+        "technique": "symbolic execution of the real step coroutines (CrossHair + z3) on a deterministic asyncio loop with solver-chosen arrival positions and interleavings; native replay",
+    },
     "C33": {
         "text": "Bounded symbolic check: compare_tags equals the numeric (depth, components) order, is antisymmetric and transitive, sorting with it is numeric sorting, get_tag picks the deepest tag of a prefix chain and job names split back, for ALL tag components 0..99 (quick) / 0..999 (thorough) at depths 1..3 — the solver owns the values, so digit-length boundaries (9/10, 99/100) are covered without sampling.",
         "note": "CrossHair's model of str()/int()/split on z3 strings; sys.intern stubbed to identity for pathlib; step-name components from a fixed alphabet; components >= 1000 and depth > 3 (4 for get_tag) are outside the claim.",
